@@ -164,8 +164,8 @@ func (rc *realController) Finalize(release *v1beta1.BatchRelease) error {
 		patchData.UpdateProgressDeadlineSeconds(setting.ProgressDeadlineSeconds)
 		patchData.UpdateMaxSurge(setting.MaxSurge)
 		patchData.UpdateMaxUnavailable(setting.MaxUnavailable)
-		// restore label and annotation
-		patchData.DeleteAnnotation(v1beta1.OriginalDeploymentStrategyAnnotation)
+		// restore label and annotation; the original setting is kept until the wait below has passed,
+		// so that a later attempt patches again and waits on the object the API server returns
 		patchData.DeleteLabel(v1alpha1.DeploymentStableRevisionLabel)
 		patchData.DeleteAnnotation(util.BatchReleaseControlAnnotation)
 		if err := rc.client.Patch(context.TODO(), d, patchData); err != nil {
@@ -181,7 +181,16 @@ func (rc *realController) Finalize(release *v1beta1.BatchRelease) error {
 	klog.InfoS("Finalize: All pods updated and ready, then restore hpa", "Deployment", klog.KObj(rc.object))
 
 	// restore hpa
-	return hpa.RestoreHPA(rc.client, rc.object)
+	if err := hpa.RestoreHPA(rc.client, rc.object); err != nil {
+		return err
+	}
+	// all done: only now forget the original setting
+	if !rc.restored() {
+		patchData := patch.NewDeploymentPatch()
+		patchData.DeleteAnnotation(v1beta1.OriginalDeploymentStrategyAnnotation)
+		return rc.client.Patch(context.TODO(), util.GetEmptyObjectWithKey(rc.object), patchData)
+	}
+	return nil
 }
 
 func (rc *realController) restored() bool {
